@@ -645,35 +645,28 @@ Qed.
 
 Lemma pinned_ok_b_spec : forall held c, pinned_ok_b held c = true <-> pinned_ok held c.
 Proof.
-  intros held [[[h pinned] ctonly] cands]. unfold pinned_ok_b, pinned_ok. destruct pinned as [ids|].
-  - rewrite !andb_true_iff, set_eqb_spec, negb_true_iff. split.
-    + intros [[H1 H2] H3]. split; [intros Hx; subst; discriminate | split; assumption].
-    + intros [H1 [H2 H3]]. split; [split; [destruct ids; [congruence | reflexivity] | exact H2] | exact H3].
-  - apply is_nil_spec.
+  intros held [[[h pinned] ctonly] cands]. unfold pinned_ok_b, pinned_ok. rewrite orb_true_iff, is_nil_spec. split.
+  - intros [H|H]; [left; exact H|]. destruct pinned as [ids|]; [|discriminate]. apply andb_prop in H. destruct H as [H1 H2].
+    right. exists ids. split; [reflexivity|]. split; [apply set_eqb_spec; exact H1 | exact H2].
+  - intros [H|[ids [Hp [Heq Hc]]]]; [left; exact H|]. right. subst pinned. apply andb_true_intro. split; [apply set_eqb_spec; exact Heq | exact Hc].
 Qed.
 
-Lemma strict_ok_b_spec : forall md c, strict_ok_b md c = true <-> strict_ok md c.
+Lemma strict_ok_b_spec : forall md held c, strict_ok_b md held c = true <-> strict_ok md held c.
 Proof.
-  intros md [[[h pinned] ctonly] cands]. unfold strict_ok_b, strict_ok. destruct md; destruct pinned.
+  intros md held [[[h pinned] ctonly] cands]. unfold strict_ok_b, strict_ok. destruct md.
   - split; [intros _ H; discriminate | reflexivity].
-  - split; [intros _ H; discriminate | reflexivity].
-  - split; [intros _ _ H; discriminate | reflexivity].
-  - split; [intros H _ _; apply is_nil_spec; exact H | intros H; apply is_nil_spec; apply H; reflexivity].
+  - rewrite orb_true_iff, negb_true_iff, is_nil_spec. split.
+    + intros [H|H] _ Hn; [apply is_nil_spec in Hn; congruence | exact H].
+    + intros H. destruct (is_nil (held_of h held)) eqn:E; [right; apply H; [reflexivity | apply is_nil_spec; exact E] | left; reflexivity].
 Qed.
 
 Lemma solve_ok_b_spec : forall md offs claims s, solve_ok_b md offs claims s = true <-> solve_ok md offs claims s.
 Proof.
-  intros md offs claims s. unfold solve_ok_b, solve_ok. rewrite !andb_true_iff, snap_holds_b_spec, !forallb_forall. split.
-  - intros [[H1 H2] H3]. split; [exact H1|]. split.
-    + intros r c0 Hc Hpos. specialize (H2 r (spec_cap_in offs r c0 Hc)). rewrite Hc in H2.
-      assert (Hp : (0 <=? c0) = true) by (apply Z.leb_le; exact Hpos). rewrite Hp in H2. apply Z.leb_le. exact H2.
-    + intros c Hc. specialize (H3 c Hc). apply andb_prop in H3. destruct H3 as [Ha Hb].
-      split; [apply pinned_ok_b_spec; exact Ha | apply strict_ok_b_spec; exact Hb].
-  - intros [H1 [H2 H3]]. split; [split; [exact H1|]|].
-    + intros r _. destruct (spec_cap offs r) as [c0|] eqn:Hc; [|reflexivity].
-      destruct (0 <=? c0) eqn:Hp; [|reflexivity]. apply Z.leb_le. apply Z.leb_le in Hp. eapply H2; eauto.
-    + intros c Hc. destruct (H3 c Hc) as [Ha Hb]. apply andb_true_intro.
-      split; [apply pinned_ok_b_spec; exact Ha | apply strict_ok_b_spec; exact Hb].
+  intros md offs claims s. unfold solve_ok_b, solve_ok. rewrite andb_true_iff, snap_holds_b_spec, forallb_forall. split.
+  - intros [H1 H3]. split; [exact H1|]. intros c Hc. specialize (H3 c Hc). apply andb_prop in H3. destruct H3 as [Ha Hb].
+    split; [apply pinned_ok_b_spec; exact Ha | apply strict_ok_b_spec; exact Hb].
+  - intros [H1 H3]. split; [exact H1|]. intros c Hc. destruct (H3 c Hc) as [Ha Hb]. apply andb_true_intro.
+    split; [apply pinned_ok_b_spec; exact Ha | apply strict_ok_b_spec; exact Hb].
 Qed.
 
 Lemma placed_ok_b_spec : forall md ofs cands, placed_ok_b md ofs cands = true <-> placed_ok md ofs cands.
@@ -724,7 +717,7 @@ Fixpoint frun (gate : bool) (md : mode) (s : fsys) (ops : list fop) : option fsy
 Definition tpls_offs (tpls : list (freq * list itype)) : list (string * rid * Z) := flat_map (fun t => catalog_offs (snd t)) tpls.
 
 Definition finit (tpls : list (freq * list itype)) : fsys :=
-  mkFS (init_sys (tpls_offs tpls)) (fun _ => mkF None None None) (fun _ => []).
+  mkFS (init_sys (tpls_offs tpls)) (fun _ => mkF None None None RAny) (fun _ => []).
 
 Definition its_in_cat (tpls : list (freq * list itype)) (its : list itype) : Prop :=
   forall it, In it its -> exists tpl, In tpl tpls /\ In it (snd tpl).
@@ -790,4 +783,26 @@ Proof.
   - exists fs. split; [exact E|]. split.
     + intros r c0 Hc. apply (SInv_holders (spec_cap (tpls_offs tpls)) Hnn (fs_core fs) r c0 Hs Hc).
     + intros h r. apply (SInv_pinned (spec_cap (tpls_offs tpls))). exact Hs.
+Qed.
+
+(* explicit reservation-id requirements of pods / NodePools: the requirement FinalizeScheduling leaves on a NodeClaim
+   that holds reservations admits exactly the held ids (the held ids were admitted by the pods' / pool's own
+   requirement, because only compatible offerings are reserved) *)
+Lemma final_rids_exact_l : forall q held r, held <> [] ->
+  (forall x, In x held -> radmits (f_rids q) x = true) ->
+  (radmits (final_rids q held) r = true <-> In r held).
+Proof.
+  intros q held r Hne Hadm. unfold final_rids. destruct held as [|a t] eqn:Eh; [congruence|]. rewrite <- Eh in *. clear Hne.
+  destruct (f_rids q) as [|l|k] eqn:Eq; simpl.
+  - apply mem_In.
+  - rewrite mem_In, filter_In, mem_In. split; [tauto|]. intros H. split; [|exact H]. apply mem_In. apply (Hadm r H).
+  - rewrite mem_In, filter_In. split; [tauto|]. intros H. split; [exact H|]. apply (Hadm r H).
+Qed.
+
+Lemma cands_admitted : forall q its r, In r (cands_of q its) -> radmits (f_rids q) r = true.
+Proof.
+  intros q its r H. unfold cands_of in H. apply in_flat_map in H. destruct H as [it [_ H]]. apply in_map_iff in H.
+  destruct H as [o [Ho H]]. apply filter_In in H. destruct H as [_ Hf]. apply andb_prop in Hf. destruct Hf as [Hf Hc].
+  apply andb_prop in Hf. destruct Hf as [Hct _]. unfold off_compat in Hc. apply andb_prop in Hc. destruct Hc as [_ Hr].
+  rewrite Hct in Hr. simpl in Hr. subst r. exact Hr.
 Qed.
